@@ -5,7 +5,7 @@ From Verif Require Import Base.Tactics Base.ZList Base.Str Model.IsoTimeModel Mo
 (* formatting a value to its URL text, carrying it through the query string and parsing it at
    the media endpoint is the identity - for every legal value (unbounded: every integer, every
    URL-plain string and list of tokens, every error list with integer positions, every symbolic or date-time
-   availabilityStartTime with any UTC offset, every licence URL) of the nine kinds *)
+   availabilityStartTime with any UTC offset, every licence URL, every PlayReady version with one fractional digit) of the ten kinds *)
 Theorem C07_roundtrip :
   forall k v, legal k v = true -> through_url k v = Some v.
 Proof. exact roundtrip. Qed.
@@ -38,8 +38,8 @@ Proof.
 Qed.
 Print Assumptions C07_table_known.
 
-(* ... and the options whose kind is NOT covered by C07_roundtrip / C07_drm_roundtrip are exactly these
-   (the PlayReady version, a float): decided by the differential round trip on the real codecs only *)
+(* ... and no option is left whose kind is NOT covered by C07_roundtrip / C07_drm_roundtrip (the PlayReady version, a
+   float, is covered for values with one fractional digit - the listed choices 1.0 .. 4.0 are of that form) *)
 Definition unproved_cgi : list str :=
   map (map (fun c => c)) (map o_cgi (filter (fun r => negb (proved_kind (o_kind r))) options_table)).
 Theorem C07_table_proved :
@@ -50,7 +50,7 @@ Proof.
   apply filter_In. split; [exact Hr|]. rewrite E. reflexivity.
 Qed.
 Print Assumptions C07_table_proved.
-Example C07_unproved_count : length unproved_cgi = 1%nat.
+Example C07_unproved_count : length unproved_cgi = 0%nat.
 Proof. vm_compute. reflexivity. Qed.
 
 (* an option is written into the URLs of media type m exactly when its usage mask contains m
